@@ -752,6 +752,8 @@ def install_core():
   object.__setattr__(configuration.CONF, '_lock', CoRLock())
   if hasattr(logs, '_RECORD_HANDLERS_LOCK'):
     _patch(logs, '_RECORD_HANDLERS_LOCK', CoLock())
+  if hasattr(plugs, '_PLUG_LOGGER_LOCK'):
+    _patch(plugs, '_PLUG_LOGGER_LOCK', CoRLock())
   logging._lock = CoRLock()
   logging.Handler.createLock = lambda self: setattr(self, 'lock', CoRLock())
   for lg in [logging.getLogger()] + [l for l in logging.Logger.manager.loggerDict.values() if isinstance(l, logging.Logger)]:
